@@ -19,10 +19,16 @@ CONSTANTS Settings,     \* set of [mid |-> ms, skew |-> ms]
           Family        \* "A" | "B" | "C" : which input family Init ranges over
 
 \* tolerance settings used by the configurations (cfg: Settings <- QuickSettings ...)
-QuickSettings    == { [mid |-> 90000, skew |-> 180000] }
-ThoroughSettings == { [mid |-> 90000, skew |-> 180000], [mid |-> 0, skew |-> 0],
-                      [mid |-> 1, skew |-> 3600000], [mid |-> 3600000, skew |-> 1],
-                      [mid |-> 7000, skew |-> 0], [mid |-> 0, skew |-> 7000] }
+\* delay = "ms": MaxIssueDelay is `mid` milliseconds.  delay = "max": MaxIssueDelay is the LARGEST value the setting can
+\* hold (math.MaxInt64 ns, about 292 years - far beyond what TLC's integers hold).  IssueInstants are then stated relative
+\* to (now - that delay): with mid = 0 every formula below is literally the same, only the concretisation differs (the
+\* harness places the IssueInstants about 292 years back); the comparison must still be exact there - no saturating
+\* subtraction, no overflow.  Such settings run over family A only.
+QuickSettings    == { [mid |-> 90000, skew |-> 180000, delay |-> "ms"], [mid |-> 0, skew |-> 180000, delay |-> "max"] }
+ThoroughSettings == { [mid |-> 90000, skew |-> 180000, delay |-> "ms"], [mid |-> 0, skew |-> 0, delay |-> "ms"],
+                      [mid |-> 1, skew |-> 3600000, delay |-> "ms"], [mid |-> 3600000, skew |-> 1, delay |-> "ms"],
+                      [mid |-> 7000, skew |-> 0, delay |-> "ms"], [mid |-> 0, skew |-> 7000, delay |-> "ms"],
+                      [mid |-> 0, skew |-> 180000, delay |-> "max"], [mid |-> 0, skew |-> 0, delay |-> "max"] }
 
 Now  == 0
 Far  == 3600000         \* one hour
@@ -96,6 +102,7 @@ AbsOf(i, s) == [artII |-> AbsII(i.artII, s), respII |-> AbsII(i.respII, s),
 
 Init == /\ cfg \in Settings
         /\ in \in Inputs
+        /\ cfg.delay = "max" => in \in InputsA
         /\ abs = AbsOf(in, cfg)
         /\ pc = (IF in.entry = "xml" THEN "RespII" ELSE "ArtII") /\ ai = 1 /\ cj = 1 /\ errs = <<>> /\ oks = <<>>
         /\ verdict = "none" /\ ret = 0 /\ step = "none"
